@@ -212,10 +212,11 @@ class SmtLibSolver(Solver): # TODO this class is defined twice in pysmt. Here an
 
     def get_model(self):
         assignment = {}
-        for s in self.declared_vars[-1]:
-            if s.is_term():
-                v = self.get_value(s)
-                assignment[s] = v
+        for level in self.declared_vars:
+            for s in level:
+                if s.is_term():
+                    v = self.get_value(s)
+                    assignment[s] = v
         return EagerModel(assignment=assignment, environment=self.environment)
 
     def _exit(self):
